@@ -160,7 +160,12 @@ func (t *Topic) DeleteExistingChannel(channelName string) error {
 
 	verifPoint("chan.delete.beforeUnlink")
 	t.Lock()
-	delete(t.channelMap, channelName)
+	// unlink this channel, not whatever is registered under the name by now
+	// (an overlapping deletion may have unlinked it already and the name may
+	// belong to a new channel that nobody deleted)
+	if t.channelMap[channelName] == channel {
+		delete(t.channelMap, channelName)
+	}
 	numChannels := len(t.channelMap)
 	t.Unlock()
 
